@@ -548,18 +548,12 @@ class ResourceQuerySegment(object):
         if len(rest) == 0:
             return processed
         if rest[0].encode() == ".":
-            if len(processed) == 0:
-                return self._query_to_absolute(path, path[:], rest[1:])
-            else:
-                return self._query_to_absolute(path, processed, rest[1:])
+            return self._query_to_absolute(path, processed, rest[1:])
 
         if rest[0].encode() == "..":
             if len(processed) == 0:
-                if len(path) == 0:
-                    raise Exception("Can't go up from root")
-                return self._query_to_absolute(path, path[:-1], rest[1:])
-            else:
-                return self._query_to_absolute(path, processed[:-1], rest[1:])
+                raise Exception("Can't go up from root")
+            return self._query_to_absolute(path, processed[:-1], rest[1:])
         return self._query_to_absolute(path, processed + [rest[0]], rest[1:])
 
     def to_absolute(self, path):
@@ -580,8 +574,12 @@ class ResourceQuerySegment(object):
 
         if self.query is None or len(self.query) == 0:
             return self
+        if self.query[0].encode() in (".", ".."):
+            anchor = path[:]
+        else:
+            anchor = []
         return ResourceQuerySegment(
-            header=self.header, query=self._query_to_absolute(path, [], self.query)
+            header=self.header, query=self._query_to_absolute(path, anchor, self.query)
         )
 
     def __repr__(self):
